@@ -49,6 +49,7 @@ class Scanner:
         self.calls = []            # (module, domain, perm)
         self.out_perms = []        # per call: the `.permute(literal)` applied to its result (None: used as returned)
         self.pending = {}          # variable name -> indices of calls whose (not yet permuted) result it holds
+        self.axis_vars = set()     # locals holding the length of a tensor axis (`n = data.shape[1]`, `n = data.size(1)`)
         self.depth = 0
 
     # -- concrete evaluation of an expression on the instantiated objects; UNKNOWN when it involves tensors
@@ -149,7 +150,11 @@ class Scanner:
                     if isinstance(nm, ast.Name):
                         self.pending[nm.id] = fresh + carried
             val = self.value(st.value, env, glob)
-            perm = self._perm_of(st.value, perms)
+            if val is UNKNOWN and self._axis_len(st.value):
+                for t in st.targets:
+                    if isinstance(t, ast.Name):
+                        self.axis_vars.add(t.id)
+            perm = self._perm_of(st.value, perms, env, glob)
             for t in st.targets:
                 self._bind(t, val, env)
                 for n in ast.walk(t):
@@ -168,7 +173,7 @@ class Scanner:
             if it is UNKNOWN:
                 # a range that depends on a tensor size: the loop over the coils
                 src = ast.unparse(st.iter)
-                if "size(" not in src and "shape" not in src:
+                if not self._axis_len(st.iter):
                     raise Untranslatable(f"loop over `{src}` is neither concrete nor a loop over a tensor axis")
                 self._bind(st.target, UNKNOWN, env)
                 self.block(st.body, env, glob, PER_COIL, perms)
@@ -200,14 +205,40 @@ class Scanner:
             for t, v in zip(target.elts, vals):
                 self._bind(t, v, env)
 
-    def _perm_of(self, node, perms):
-        """the outermost `.permute(literal)` applied in `node`, else the one of the variables it is built from"""
+    def _axis_len(self, node):
+        """does the expression depend on the length of a tensor axis (`x.size(d)`, `x.shape[d]`, a local holding one)?"""
+        src = ast.unparse(node)
+        if "size(" in src or "shape" in src:
+            return True
+        return any(isinstance(n, ast.Name) and n.id in self.axis_vars for n in ast.walk(node))
+
+    def _perm_literal(self, call, env, glob):
+        """the permutation of `x.permute(...)`: literal arguments, a literal tuple, or `*NAME` / `NAME` of a constant tuple
+        (a local, a module-level constant or an attribute of the module)"""
+        vals = []
+        for a in call.args:
+            inner = a.value if isinstance(a, ast.Starred) else a
+            try:
+                v = ast.literal_eval(inner)
+            except (ValueError, SyntaxError):
+                v = self.value(inner, env or {}, glob or {})
+                if v is UNKNOWN and isinstance(inner, ast.Name) and glob is not None and inner.id in glob:
+                    v = glob[inner.id]
+            if isinstance(a, ast.Starred) or (len(call.args) == 1 and isinstance(v, (tuple, list))):
+                if not isinstance(v, (tuple, list)):
+                    return None
+                vals.extend(v)
+            else:
+                vals.append(v)
+        if vals and all(isinstance(v, int) and not isinstance(v, bool) for v in vals):
+            return tuple(vals)
+        return None
+
+    def _perm_of(self, node, perms, env=None, glob=None):
+        """the outermost `.permute(…)` applied in `node`, else the one of the variables it is built from"""
         for n in ast.walk(node):
             if isinstance(n, ast.Call) and isinstance(n.func, ast.Attribute) and n.func.attr == "permute":
-                try:
-                    return tuple(ast.literal_eval(a) for a in n.args)
-                except (ValueError, SyntaxError):
-                    return None
+                return self._perm_literal(n, env, glob)
         for n in ast.walk(node):
             if isinstance(n, ast.Name) and perms.get(n.id) is not None:
                 return perms[n.id]
@@ -222,12 +253,7 @@ class Scanner:
             # by a variable of <expr>) that has not been permuted yet
             n0 = len(self.calls)
             self.expr(node.func.value, env, glob, dom, perms)
-            try:
-                lit = tuple(ast.literal_eval(a) for a in node.args)
-                if len(lit) == 1 and isinstance(lit[0], (tuple, list)):
-                    lit = tuple(lit[0])
-            except (ValueError, SyntaxError):
-                lit = None
+            lit = self._perm_literal(node, env, glob)
             if lit is not None:
                 idxs = list(range(n0, len(self.calls)))
                 for nm in ast.walk(node.func.value):
@@ -248,7 +274,7 @@ class Scanner:
                 self.expr(node.func.value, env, glob, dom, perms)
             f = self.value(node.func, env, glob)
             if isinstance(f, nn.Module):
-                arg_perm = self._perm_of(node.args[0], perms) if node.args else None
+                arg_perm = self._perm_of(node.args[0], perms, env, glob) if node.args else None
                 if id(f) in self.den:
                     self.calls.append((f, dom, arg_perm))
                     self.out_perms.append(None)
@@ -271,7 +297,8 @@ class Scanner:
             it = self.value(gen.iter, env, glob)
             self.expr(gen.iter, env, glob, dom, perms)
             if it is UNKNOWN:
-                self.expr(node.elt, env, glob, dom, perms)
+                # a comprehension over the length of a tensor axis is the per-coil loop, as the `for` statement is
+                self.expr(node.elt, env, glob, PER_COIL if self._axis_len(gen.iter) else dom, perms)
             else:
                 for item in list(it):
                     sub = dict(env)
@@ -307,13 +334,13 @@ class Scanner:
             if i < len(vals):
                 sub[p] = vals[i]
                 if argnodes[i] is not None:
-                    subperms[p] = self._perm_of(argnodes[i], perms)
+                    subperms[p] = self._perm_of(argnodes[i], perms, env, glob)
             else:
                 sub[p] = UNKNOWN
         for k in call.keywords:
             if k.arg in params:
                 sub[k.arg] = self.value(k.value, env, glob)
-                subperms[k.arg] = self._perm_of(k.value, perms)
+                subperms[k.arg] = self._perm_of(k.value, perms, env, glob)
         # defaults that are concrete (e.g. `coil_dim: int = 1`)
         defaults = node.args.defaults
         for j, d in enumerate(defaults):
